@@ -14,5 +14,7 @@ theorem dict_version_matches : ColumnVerif.Generated.dictVersion = expectedDictV
 theorem flag_fillOpsUnderCollLock : fillOpsUnderCollLock = true := by decide +kernel
 theorem flag_insertProtocol : insertProtocol = true := by decide +kernel
 theorem flag_commitClosureOrder : commitClosureOrder = true := by decide +kernel
+theorem flag_readInsideRLatch : readInsideRLatch = true := by decide +kernel
+theorem flag_delegateInsideLatch : delegateInsideLatch = true := by decide +kernel
 
 end ColumnVerif.Props.C02skel
